@@ -130,8 +130,10 @@ Section Heads.
       cbv beta iota in Hv. rewrite all_list_forallb in Hv. rewrite forallb_forall in Hv.
       unfold pv_good in Hg. cbn [pv_all] in Hg. rewrite forallb_forall in Hg.
       cbn [field_nan_ok] in Hn. rewrite forallb_forall in Hn.
-      cbn [norm_pv]. rewrite (list_norm_eq sc n IHo t p l); try assumption; [reflexivity|].
-      intros y Hy. rewrite size_list in Hs. pose proof (in_sum_size y l Hy). lia.
+      cbn [norm_pv].
+      assert (Sz : forall y, In y l -> (pv_size y < n)%nat)
+        by (intros y Hy; rewrite size_list in Hs; pose proof (in_sum_size y l Hy); lia).
+      rewrite (list_norm_eq sc n IHo t p l Sz Wp Hv Hg Hn). reflexivity.
     - apply andb_prop in Wh as [Wh _]. apply andb_prop in Wh as [_ Wmap].
       destruct mp as [[kt vt]|]; [|discriminate Wmap].
       apply andb_prop in Wmap as [Wmap Wv]. apply andb_prop in Wmap as [Wmap _]. apply andb_prop in Wmap as [Wkey _].
@@ -139,7 +141,7 @@ Section Heads.
       cbv beta iota in Hv. rewrite all_dict_forallb in Hv. rewrite forallb_forall in Hv.
       unfold pv_good in Hg. cbn [pv_all] in Hg. rewrite forallb_forall in Hg.
       cbn [field_nan_ok] in Hn. rewrite forallb_forall in Hn.
-      cbn [norm_pv]. rewrite (dict_norm_eq sc n IHo kt vt p d Wkey Wv Hd); [reflexivity|].
+      cbn [norm_pv]. cbn [dict_cond] in Hd. rewrite (dict_norm_eq sc n IHo kt vt p d Wkey Wv Hd); [reflexivity|].
       intros k y Hy. specialize (Hv _ Hy). cbn [fst snd] in Hv. apply andb_prop in Hv as [Hk Hy'].
       split; [rewrite size_dict in Hs; pose proof (in_sum_size_d k y d Hy); lia|].
       split; [exact Hk|]. split; [exact Hy'|]. split; [exact (Hg _ Hy)|exact (Hn _ Hy)].
